@@ -432,6 +432,58 @@ def _flows(b, local, operand):
     return False
 
 
+def _r06_5_loop_prefill(ctx, prog, crate, pe, bc, sl, rs):
+    """The pre-fill written as a counting loop: `for i in 0..N { base.add(i).write(None) }` with N the number of slots
+    set_len exposes (aux_threads + 1) and base = vec.as_mut_ptr().add(old_len)."""
+    from lib.symexpr import Sym, show
+    S = Sym(pe, site_args=True)
+    lp = pe.loops[0]
+    aux = ("arg", 3, ())
+    want_n = S.op(rs.args[1])
+    ctx.check(want_n == ("lin", ((aux, 1),), 1), "R06.5", ["par_extend", "reserve-aux+1"], "reserve argument is %s, expected aux_threads + 1" % show(want_n), rs.line())
+    ln = S.op(sl.args[1])
+    ok = ln[0] == "lin" and ln[2] == 1 and dict(ln[1]).get(aux) == 1 and len(ln[1]) == 2 and any(a[0] == "call" and a[1] == "std::vec::Vec::len" for a, c_ in ln[1])
+    ctx.check(ok, "R06.5", ["par_extend", "set_len-old+aux+1"], "set_len argument is %s" % show(ln), sl.line())
+    ctx.check(S.op(bc.args[1]) == aux, "R06.5", ["par_extend", "broadcast-same-count"], "broadcast gets %s" % show(S.op(bc.args[1])), bc.line())
+    # the loop: range 0..N built before it, one write of None per iteration at base.add(i)
+    rng = None
+    for bi, si, s_ in pe.stmts():
+        if s_["k"] == "assign" and s_["rv"]["k"] == "agg" and s_["rv"]["ak"] == "adt" and norm(s_["rv"]["adt"]) == "std::ops::Range" and bi not in lp["body"]:
+            rng = S.rv(s_["rv"])
+    wr = [c for c in pe.live_calls() if c.bb in lp["body"] and c.callee in ("std::ptr::mut_ptr::write", "std::ptr::write", "std::mem::MaybeUninit::write")]
+    okr = rng is not None and rng[3][0] == ("int", 0) and rng[3][1] == want_n
+    ctx.check(okr and len(wr) == 1 and pe.once_per_iteration(wr[0].bb, lp), "R06.5", ["par_extend", "prefill-covers-all-exposed-slots"],
+              "the None pre-fill loop runs over %s with %d writes per iteration; expected 0..aux_threads + 1 (every slot set_len exposes): the entry of a "
+              "panicking call could be uninitialised or stale instead of empty" % (show(rng) if rng else None, len(wr)), pe.where(lp["header"]))
+    if len(wr) == 1:
+        w = wr[0]
+        vs = {z.a for z in pe.prov.op_src(w.args[1]) if z.kind == "variant"}
+        ctx.check(vs == {"std::option::Option::None"}, "R06.5", ["par_extend", "prefill-None"], "slots pre-filled with %s" % sorted(vs), w.line())
+        dst = S.op(w.args[0])
+        txt = str(dst)
+        ok = "as_mut_ptr" in txt and "std::vec::Vec::len" in txt and "::next" in txt and txt.count("::add'") >= 1
+        ctx.check(ok, "R06.5", ["par_extend", "prefill-slot-is-base.add(i)"], "the pre-fill writes to %s, expected vec.as_mut_ptr().add(old_len).add(i)" % show(dst), w.line())
+    ctx.check(pe.dominates(rs.bb, lp["header"]) and pe.dominates(lp["header"], sl.bb) and pe.dominates(sl.bb, bc.bb), "R06.5",
+              ["par_extend", "prefill-then-set_len-then-broadcast"], "slots are not reserved, pre-filled and set_len'ed before the broadcast", bc.line())
+    # the task closure (same checks as in the for_each form)
+    cls = [x for x in prog.children(pe) if x.kind == "Closure"]
+    task = [x for x in cls if any(c.callee in ("std::ptr::mut_ptr::write", "std::ptr::write") for c in x.live_calls())]
+    if ctx.check(len(task) == 1, "R06.5", ["par_extend", "task-closure"], "task closures: %d" % len(task), pe.where(0)):
+        x = task[0]
+        ctx.saw(x)
+        w2 = [c for c in x.live_calls() if c.callee in ("std::ptr::mut_ptr::write", "std::ptr::write")][0]
+        dst = x.prov.op_src(w2.args[0])
+        idx = "param:" + x.param_name(2)
+        ctx.check(any(z.kind == "call" and z.a.endswith("::add") for z in dst) and idx in {z.label() for z in dst}, "R06.5",
+                  ["par_extend", "slot-is-ptr.add(index)"], "the result is written to %s" % sorted(z.label() for z in dst), w2.line())
+        val = x.prov.op_src(w2.args[1])
+        ctx.check(any(z.kind == "variant" and z.a == "std::option::Option::Some" for z in val) and idx in {z.label() for z in val}, "R06.5",
+                  ["par_extend", "value-is-Some(task(index))"], "the value written derives from %s" % sorted(z.label() for z in val), w2.line())
+        for c in [c for c in x.live_calls() if c.callee.endswith("::add")]:
+            ctx.check({z.label() for z in x.prov.op_src(c.args[1])} == {idx}, "R06.5", ["par_extend", "offset-is-own-index"],
+                      "pointer offset is %s" % sorted(z.label() for z in x.prov.op_src(c.args[1])), c.line())
+
+
 def r06_5(ctx, prog, crate):
     pe = prog.body(POOL + "ThreadPool::par_extend", crate)
     if not ctx.anchor("R06.5", "ThreadPool::par_extend", 1 if pe else 0, 1):
@@ -441,6 +493,8 @@ def r06_5(ctx, prog, crate):
     sl = [c for c in pe.live_calls() if c.callee == "std::vec::Vec::set_len"]
     fe = [c for c in pe.live_calls() if c.callee.endswith("::for_each")]
     rs = [c for c in pe.live_calls() if c.callee in ("std::vec::Vec::reserve_exact", "std::vec::Vec::reserve")]
+    if len(bc) == 1 and len(sl) == 1 and len(fe) == 0 and len(rs) == 1 and len(pe.loops) == 1:
+        return _r06_5_loop_prefill(ctx, prog, crate, pe, bc[0], sl[0], rs[0])
     if not ctx.check(len(bc) == 1 and len(sl) == 1 and len(fe) == 1 and len(rs) == 1, "R06.5", ["par_extend", "shape"],
                      "broadcast x%d set_len x%d for_each x%d reserve x%d" % (len(bc), len(sl), len(fe), len(rs)), pe.where(0)):
         return
